@@ -1,0 +1,46 @@
+//! Verification hooks. Compiled only with `--cfg turdb_verif`; with the flag
+//! off nothing in this file exists and no call site is compiled.
+//!
+//! * a settable callback invoked at the top of `MmapStorage::page_mut` / `grow`
+//!   (crash-point enumeration: every page mutation is an event),
+//! * thin `pub` wrappers around `pub(crate)` entry points that the external
+//!   harness drives directly (both recovery paths, index-key encoding).
+
+use std::path::Path;
+use std::sync::atomic::{AtomicUsize, Ordering};
+
+/// `kind`: 0 = `page_mut(page_no)`, 1 = `grow(new_page_count)`.
+pub type PageMutHook = fn(fd: i32, page_no: u32, kind: u8);
+
+static PAGE_MUT_HOOK: AtomicUsize = AtomicUsize::new(0);
+
+pub fn set_page_mut_hook(hook: Option<PageMutHook>) {
+    PAGE_MUT_HOOK.store(hook.map(|f| f as usize).unwrap_or(0), Ordering::SeqCst);
+}
+
+#[inline]
+pub fn page_mut(fd: i32, page_no: u32, kind: u8) {
+    let p = PAGE_MUT_HOOK.load(Ordering::Relaxed);
+    if p != 0 {
+        // SAFETY: only values stored by `set_page_mut_hook` (a valid `PageMutHook`) are non-zero.
+        let f: PageMutHook = unsafe { std::mem::transmute::<usize, PageMutHook>(p) };
+        f(fd, page_no, kind);
+    }
+}
+
+/// Automatic recovery as run by `Database::open` (frames applied).
+pub fn recover_all_tables(db_path: &Path, wal_dir: &Path) -> eyre::Result<u32> {
+    crate::Database::recover_all_tables(db_path, wal_dir)
+}
+
+/// Streaming recovery as run by `PRAGMA recover_wal` in degraded mode.
+pub fn streaming_recovery(db_path: &Path, wal_dir: &Path, batch_size: usize) -> eyre::Result<u32> {
+    crate::Database::streaming_recovery(db_path, wal_dir, batch_size, None)
+}
+
+/// Index-key bytes the database produces for one column value.
+pub fn encode_value_as_key(value: &crate::OwnedValue) -> Vec<u8> {
+    let mut buf: Vec<u8> = Vec::new();
+    crate::Database::encode_value_as_key(value, &mut buf);
+    buf
+}
